@@ -57,7 +57,9 @@ async def do_op(sim, request):
 
     op = request["op"]
     kind = op["op"]
-    rc_evaluator, fc_evaluator, hints_provider, _ = sim.peers
+    from sim.world import PEER_SET
+
+    rc_evaluator, fc_evaluator, hints_provider, _ = sim.peer_sets[PEER_SET.get() if len(sim.peer_sets) > 1 else 0]
     if "text" in op:
         text_to_be_evaluated_by_format_constraint.set(op["text"])
     if kind == "rc_direct":
@@ -251,6 +253,9 @@ def generate(seed, tier="quick"):
         "sync_fc": [k for k in fcs if rnd.random() < 0.2],
         "hints_sync": rnd.random() < 0.15,
     }
+    if flavour == "sim":
+        world["fc_anonymous"] = rnd.random() < 0.15  # the FC evaluator answers with two shared constant objects
+        world["two_formats"] = rnd.random() < 0.2  # the process serves two (format, version) pairs with own peers
     profile = rnd.choice([p for p in PROFILES if p != "zero"] * 4 + ["zero"])
     package_kinds = {f"{rnd.randint(1, 99)}P": "rc" for _ in range(rnd.choice([0, 1, 2, 2]))}
     n_requests = rnd.choice([2, 3, 4, 5, 6, 8] if big else [1, 1, 2, 2, 3, 4])
@@ -272,7 +277,8 @@ def generate(seed, tier="quick"):
         if op.get("drop"):
             cer["requirement_constraints"].pop(op["drop"]["rc"], None)
             cer["hints"].pop(op["drop"]["hint"], None)
-        requests.append({"rid": rid, "start": rnd.choice([0, 0, 0, 1, 2, 7]), "op": op, "cer": cer})
+        requests.append({"rid": rid, "start": rnd.choice([0, 0, 0, 1, 2, 7]), "op": op, "cer": cer,
+                         "peer_set": rnd.randrange(2) if world.get("two_formats") else 0})
     if n_requests >= 2 and rnd.random() < 0.12:
         # result objects must not be shared between evaluations: one evaluation is won by a trailing bare modal mark
         # (all conditional parts unfulfilled), others evaluate bare indicators - before, after or at the same time
@@ -309,7 +315,7 @@ def summarise(scenario):
 
 
 # ------------------------------------------------------------------------------------------------------ oracle
-def _direct_clause(request, outcome):
+def _direct_clause(request, outcome, world):
     """the pairing clause that can be stated without a reference run; returns None or a description"""
     if "ok" not in outcome:
         return None
@@ -335,12 +341,16 @@ def _direct_clause(request, outcome):
         pairs = result.get("!dict") if isinstance(result, dict) else None
         if pairs is None or sorted(p[0] for p in pairs) != sorted(dict.fromkeys(op["keys"])):
             return f"evaluate_format_constraints({op['keys']}) returned keys {pairs}"
+        anonymous = world.get("fc_anonymous") and world.get("flavour", "sim") == "sim"
         for key, value in pairs:
             entry = cer["format_constraints"][key]
-            if (
-                value.get("format_constraint_fulfilled") != entry["format_constraint_fulfilled"]
-                or value.get("error_message") != entry["error_message"]
-            ):
+            if value.get("format_constraint_fulfilled") != entry["format_constraint_fulfilled"]:
+                return f"evaluate_format_constraints: key {key} paired with {value}"
+            if anonymous:
+                # the evaluator gave no message of its own: whatever text the library adds must be this key's
+                if value.get("error_message") is not None and key not in value["error_message"]:
+                    return f"evaluate_format_constraints: key {key} carries the message of another key: {value}"
+            elif value.get("error_message") != entry["error_message"]:
                 return f"evaluate_format_constraints: key {key} paired with {value}"
     if op["op"] == "gather_mixed":
         expected = [f"{'A' if item[0] == 'a' else 'V'}{item[1]}@{rid}" for item in op["items"]]
@@ -360,13 +370,11 @@ def execute(scenario):
     verdict = base_verdict(sim, scenario)
     verdict["completed"] = sum(1 for r in observed if "ok" in outcomes.get(r["rid"], {}))
     verdict["observed"] = len(observed)
-    if getattr(sim, "shared_violation", None):
-        fail(verdict, *sim.shared_violation)
     for request in observed:
         rid = request["rid"]
         outcome = {k: v for k, v in outcomes.get(rid, {"missing": True}).items() if k != "msg"}
         kind = request["op"]["op"]
-        problem = _direct_clause(request, outcome)
+        problem = _direct_clause(request, outcome, scenario["world"])
         if problem:
             fail(verdict, f"pairing:{kind}", f"{rid}: {problem}")
         expects_exception = bool(request["op"].get("drop")) or (
